@@ -86,6 +86,10 @@ type fReq struct {
 	ObjIdx    int // smudge: which object the pointer names (-1: not a pointer)
 	Expect    []byte
 	ExpectErr bool // an error status is acceptable (scripted failure)
+	// AnyOutcome: the payload is a pointer padded with white space to 1024
+	// bytes or more; whether that is a pointer is not settled, so only the
+	// well-formedness of the exchange (and of everything after it) is judged
+	AnyOutcome bool
 	// results
 	Status1, Status2 string
 	Content          []byte
@@ -321,6 +325,7 @@ func (p *gitPeer) advance() {
 		if orig != nil {
 			next.ObjIdx = orig.ObjIdx
 			next.Expect = orig.Expect
+			next.AnyOutcome = orig.AnyOutcome
 			next.ExpectErr = orig.ExpectErr
 			delete(p.delayed, path)
 		}
@@ -503,6 +508,15 @@ func runC14(rc *RunCtx, faults bool) {
 				r.Payload = []byte(canonicalPointer(objs[oi].Oid, int64(len(objs[oi].Data))))
 				r.Expect = objs[oi].Data
 				r.ExpectErr = !local[oi] && (!onServer[oi] || faults)
+				if t.Bool(1, 12, "smudge-pointer-padded-beyond-1024") {
+					total := []int{1024, 1025, 1500, 70000}[t.Choose(4, "padded-total")]
+					pad := []string{" ", "\n"}[t.Choose(2, "pad-char")]
+					r.Payload = append(r.Payload, []byte(strings.Repeat(pad, total-len(r.Payload)))...)
+					// 1024 bytes or longer: content, passed through unchanged
+					r.ObjIdx = -1
+					r.Expect = r.Payload
+					r.ExpectErr = false
+				}
 			}
 		}
 		peer.program = append(peer.program, r)
@@ -584,6 +598,10 @@ func runC14(rc *RunCtx, faults bool) {
 				return
 			}
 		case "smudge", "retrieve":
+			if r.AnyOutcome {
+				rc.Probe("smudge-padded-pointer")
+				continue
+			}
 			if r.Delayed {
 				rc.Probe("delayed")
 				if !r.CanDelay || !delayCap {
